@@ -699,7 +699,11 @@ hwloc_distances_add_commit(hwloc_topology_t topology,
   }
 
   /* in case we added some groups, see if we need to reconnect */
-  hwloc__reconnect(topology, 0);
+  if (topology->modified) {
+    hwloc__reconnect(topology, 0);
+    /* and setup the new groups as hwloc_topology_insert_group_object() would have */
+    hwloc__groups_inserted(topology);
+  }
 
   return 0;
 
